@@ -26,10 +26,11 @@ worker() {
     done
     nv=$(echo "$out" | grep -c '^VIOLATION')
     echo "$id: $(echo "$out" | grep '^\[' | tr '\n' ' ') violations=$nv"
-    SEED_OUT="$out" python3 - "$d/meta.json" "$prop $extra" <<'PY'
+    echo "$out" > $vw/seed_out.txt
+    python3 - "$d/meta.json" "$prop $extra" "$vw/seed_out.txt" <<'PY'
 import json,os,re,sys
 p=sys.argv[1]; m=json.load(open(p))
-out=os.environ['SEED_OUT']
+out=open(sys.argv[3]).read()
 obls=sorted(set(re.sub(r'/\d+$','',x) for x in re.findall(r'obligation=(\S+)',out)))
 m['checks_run']=['git apply patch.diff (scratch worktree of /repo); bin/exovc check -p %s -tier quick'%q for q in sys.argv[2].split()]
 m['caught_by']=obls
